@@ -1141,7 +1141,7 @@ fn main() {
                 source: Source::Random { len: 768, quick: 600_000, thorough: 12_000_000 },
                 run: case_canonical,
                 inflight: false,
-                min_nontrivial: 100_000,
+                min_nontrivial: 300_000,
                 required_labels: &[
                     "set:size-0",
                     "set:size-1",
@@ -1159,7 +1159,7 @@ fn main() {
                 source: Source::Random { len: 1024, quick: 120_000, thorough: 2_400_000 },
                 run: case_completeness,
                 inflight: false,
-                min_nontrivial: 20_000,
+                min_nontrivial: 60_000,
                 required_labels: &[
                     "q:member",
                     "q:non-member:shares-0-bits",
@@ -1178,7 +1178,7 @@ fn main() {
                 source: Source::Random { len: 1536, quick: 150_000, thorough: 3_000_000 },
                 run: case_rewrites,
                 inflight: false,
-                min_nontrivial: 20_000,
+                min_nontrivial: 50_000,
                 required_labels: &[
                     "rw:root-preserved-nonidentical:REACHED-LOOKUP:verdict-ok",
                     "rw:root-preserved-nonidentical:REACHED-LOOKUP:ends-in-truncated(err)",
@@ -1200,7 +1200,7 @@ fn main() {
                 source: Source::Enumerate { f: enum_trees, exhaustive: true },
                 run: case_enum,
                 inflight: false,
-                min_nontrivial: 10,
+                min_nontrivial: 25,
                 required_labels: &[
                     "enum:root-match-nonidentical:REACHED-LOOKUP:verdict-ok",
                     "enum:root-match-nonidentical:stopped-by-leaf-position-audit",
